@@ -16,7 +16,7 @@ DIR/cases.txt with the same cases in the token form read by the Lean driver (SIM
 Classes: `bld` builder programs (valid, and single mutations of valid ones), `attr` derive attribute lists,
 `gen` generic declarations with an instantiation (C13).
 """
-import argparse, os, random, shutil, sys
+import argparse, os, random, re, shutil, sys
 sys.path.insert(0, os.path.dirname(os.path.abspath(__file__)))
 from texpr import T, hexs
 
@@ -221,7 +221,7 @@ def gen_attr(r, force=None):
     skipped = [p for p in params if r.random() < 0.4]
     mode = r.choice(['valid', 'valid', 'dup', 'unknown', 'badcap', 'missing_bound', 'plain'])
     if force is not None:
-        union, params, skipped, mode = False, list(force['params']), [], 'missing_bound'
+        union, params, skipped, mode = False, list(force['params']), [], ('missing_bound' if 'cap' not in force else 'plain')
     if mode in ('valid', 'dup', 'missing_bound') and params:
         if skipped:
             attrs.append(('skip', skipped))
@@ -254,6 +254,8 @@ def gen_attr(r, force=None):
         if cands:
             attrs.insert(r.randrange(len(attrs) + 1), r.choice(cands))
     r.shuffle(attrs)
+    if force is not None and 'cap' in force:
+        attrs = [('cap', force['cap'])]
 
     def ra(a):
         if a[0] == 'bounds':
@@ -607,6 +609,21 @@ def main():
                     open(os.path.join(bind, f'xa{kx}.rs'), 'w').write(src)
                     lines.append(f'neg xa{kx} attr {p}')
                     kx += 1
+        # every string literal the derive's `capture_docs` parser mentions today (read from /repo on every run), as written, in upper
+        # case and with a letter dropped: a spelling the parser newly accepts is tried even though no generator rule knows it
+        try:
+            asrc = open('/repo/derive/src/attr.rs').read()
+            blk = asrc[asrc.index('for CaptureDocsAttr'):]
+            blk = blk[:blk.index('\n}\n')]
+            lits = sorted(set(re.findall(r'(?<![#r])"([A-Za-z0-9_ -]{0,24})"', blk)))
+        except Exception:
+            lits = []
+        for v in lits:
+            for w in (v, v.upper(), v[:-1]):
+                src, p = gen_attr(random.Random(9500 + kx), force=dict(params=[], cap=w))
+                open(os.path.join(bind, f'xa{kx}.rs'), 'w').write(src)
+                lines.append(f'neg xa{kx} attr {p}')
+                kx += 1
     if 'bld' in classes:
         # exhaustive small part, the same in every run: every sequence of 1..3 field-builder calls over {name, ty, compact, type_name}
         # in a named and in an unnamed member list (compile-time form), as the only member of a composite and of a variant
